@@ -1,10 +1,12 @@
 import NeumannModel.Chain.Props2
 import NeumannModel.Chain.Lemmas5
+import NeumannModel.Chain.Lemmas6
 /-
   C16 — property theorems, part 3: the chain's own records (`chain:block:<h>`, `chain:meta`) and the transactions'
   keys share one store; `add_operation` refuses keys under the reserved `chain:` prefix (repo commit b368f92a).
   What the check makes true — for EVERY key a client may name, every node state, every sequential history — and
-  what was false before it (`…_old_witness`).  Same conventions as `Props.lean`.
+  what was false before it (`…_old_witness`).  Section 10: restart over the crash states of `Chain::append` (block
+  record written, height record not yet).  Same conventions as `Props.lean`.
 -/
 namespace Neumann.Chain.Props
 open Neumann.Chain
@@ -239,5 +241,239 @@ example : let n := runOps drvCrypto (initNode drvCrypto cfg0 0) [.begin, .put 0 
         = sget (commit drvCrypto n 1 6).1.chain.store (.data k)) ∧
     verifyChain drvCrypto cfg0.registry (commitOld drvCrypto n [.put (.data 2) 2] 6).1.chain = none ∧
     verifyChain drvCrypto cfg0.registry (commit drvCrypto n 1 6).1.chain = none := by decide +kernel
+
+/-! ## 10. restart over a crash state of `Chain::append` (block record written, height record not yet) -/
+
+/-- the write list IS what `append` does to the store: the store of an accepted append is the old store with both
+    writes applied, in that order (so `appendCrashStore … k`, `k = 0, 1, 2`, are exactly the stores a process can
+    leave behind when it stops inside `append`) -/
+theorem append_store_is_its_writes (C : Crypto) (reg : Option (List (List Nat × Nat))) (c c' : ChainSt) (b : Block)
+    (h : append C reg c b = .ok c') (k : Nat) : c'.store = appendCrashStore C c b (k + 2) := by
+  obtain ⟨_, _, _, _, hc'⟩ := append_ok_inv C reg c c' b h
+  rw [appendCrashStore_all, hc']
+
+/-- RESTART OVER EVERY CRASH STATE OF `append`, every chain length, every accepted block, every number `k` of store
+    writes done when the process stopped.  `c` is any chain satisfying the chain invariant with its height record in
+    place, `b` any block `append` accepts (with the two facts `verify_chain` checks and `append` does not, as in
+    `inv_append`).  A NEW `Chain` object + `initialize()` over the store left behind:
+    * `k = 0` (nothing written): height and tip of `c`;
+    * `k ≥ 1` (block record written — with or without the height record): height `c.height + 1` and the tip is the
+      hash of the block just stored, i.e. exactly the head of the completed append `c'`, over the same records;
+    * in every case the tip is the hash of the stored block at the recovered height, the height record names the
+      recovered height, the chain verifies and satisfies the invariants again — so every later append / commit
+      continues a verifying chain (`sequential_history_invariant_append_crash`). -/
+theorem reopen_after_append_crash_recovers_tip (C : Crypto) (reg : Option (List (List Nat × Nat))) (c c' : ChainSt)
+    (b : Block) (p : List Nat) (ts k : Nat)
+    (hinv : Inv C reg c) (hm : MetaInv c) (happ : append C reg c b = .ok c')
+    (hts : ∀ t, blockAt c.store c.height = some t → t.header.timestamp ≤ b.header.timestamp)
+    (hsig1 : c.height = 0 → regSigOk C reg (fixTxRoot C b).header = true) :
+    let r := openChain C (appendCrashStore C c b k) p ts
+    (k = 0 → r.height = c.height ∧ r.tip = c.tip ∧ StoreEq r.store c.store) ∧
+    (1 ≤ k → r.height = c.height + 1 ∧ r.tip = (fixTxRoot C b).header.hash C ∧
+              r.height = c'.height ∧ r.tip = c'.tip ∧ StoreEq r.store c'.store) ∧
+    (∃ t, blockAt r.store r.height = some t ∧ r.tip = t.header.hash C) ∧
+    loadHeight r.store = some r.height ∧
+    verifyChain C reg r = none ∧ Inv C reg r ∧ MetaInv r := by
+  intro r
+  have hinv' : Inv C reg c' := inv_append C reg c c' b hinv happ hts hsig1
+  obtain ⟨_, _, _, _, hc'⟩ := append_ok_inv C reg c c' b happ
+  have hm' : MetaInv c' := by
+    rw [hc']
+    exact metaInv_commit c [] (fixTxRoot C b) _ hm
+  -- the recovered chain agrees with `c` (k = 0) or with `c'` (k ≥ 1) in height, tip and records
+  have key : (k = 0 ∧ r.height = c.height ∧ r.tip = c.tip ∧ StoreEq r.store c.store) ∨
+             (1 ≤ k ∧ r.height = c'.height ∧ r.tip = c'.tip ∧ StoreEq r.store c'.store) := by
+    cases k with
+    | zero =>
+      obtain ⟨hh, ht, hs⟩ := openChain_healthy C reg c p ts hinv hm
+      exact Or.inl ⟨rfl, hh, ht, hs⟩
+    | succ k =>
+      right
+      refine ⟨by omega, ?_⟩
+      cases k with
+      | zero =>
+        obtain ⟨t, ht, _⟩ := hinv.tip
+        have : r = c' := by
+          simp only [r, Nat.zero_add, appendCrashStore_one]
+          rw [openChain_block_stored C c _ p ts hm (by rw [ht]; rfl), hc']
+        rw [this]
+        exact ⟨rfl, rfl, fun _ => rfl⟩
+      | succ k =>
+        have hs : appendCrashStore C c b (k + 1 + 1) = c'.store := (append_store_is_its_writes C reg c c' b happ k).symm
+        simp only [r, hs]
+        exact openChain_healthy C reg c' p ts hinv' hm'
+  have fin : ∀ d : ChainSt, Inv C reg d → MetaInv d → r.height = d.height → r.tip = d.tip → StoreEq r.store d.store →
+      (∃ t, blockAt r.store r.height = some t ∧ r.tip = t.header.hash C) ∧
+      loadHeight r.store = some r.height ∧ verifyChain C reg r = none ∧ Inv C reg r ∧ MetaInv r := by
+    intro d hd hmd hh ht hs
+    have hi : Inv C reg r := inv_congr C reg d r (fun j => storeEq_blockAt hs j) hh ht hd
+    have hmr : MetaInv r := metaInv_congr d r hs hh hmd
+    exact ⟨hi.tip, by simp [loadHeight, hmr.heightRec], verify_complete C reg r hi.ok, hi, hmr⟩
+  have hh' : c'.height = c.height + 1 := by rw [hc']
+  have ht' : c'.tip = (fixTxRoot C b).header.hash C := by rw [hc']
+  rcases key with ⟨hk, hh, ht, hs⟩ | ⟨hk, hh, ht, hs⟩
+  · exact ⟨fun _ => ⟨hh, ht, hs⟩, fun h1 => by omega, fin c hinv hm hh ht hs⟩
+  · exact ⟨fun h0 => by omega, fun _ => ⟨by rw [hh, hh'], by rw [ht, ht'], hh, ht, hs⟩, fin c' hinv' hm' hh ht hs⟩
+
+/-- non-vacuity: the genesis-only chain and the concrete block `exBlock1` of `Props.lean` satisfy the hypotheses
+    (`append` accepts the block), and over "block record 1 written, height record still 0" a restart finds
+    height 1 with the hash of block 1 as tip -/
+example : Inv drvCrypto (some [([1], 1)]) (initChain drvCrypto [] [1] 10) ∧ MetaInv (initChain drvCrypto [] [1] 10) ∧
+    (match append drvCrypto (some [([1], 1)]) (initChain drvCrypto [] [1] 10) exBlock1 with
+      | .ok c => decide (c = exChain1) | .error _ => false) = true ∧
+    loadHeight (appendCrashStore drvCrypto (initChain drvCrypto [] [1] 10) exBlock1 1) = some 0 ∧
+    (openChain drvCrypto (appendCrashStore drvCrypto (initChain drvCrypto [] [1] 10) exBlock1 1) [1] 99).height = 1 ∧
+    (openChain drvCrypto (appendCrashStore drvCrypto (initChain drvCrypto [] [1] 10) exBlock1 1) [1] 99).tip
+      = exBlock1.header.hash drvCrypto :=
+  ⟨inv_init _ _ _ _ _, metaInv_init _ _ _, by decide, by decide, by decide, by decide⟩
+
+/-- node states reachable through ANY sequential history of client calls with restarts (`SeqReachR`) in which, in
+    addition, the process may STOP INSIDE THE `Chain::append` OF ANY COMMIT — after the block record was written,
+    with or without the height record (`commitCrashInAppend`, `k ≥ 1`) — and be restarted over the store left
+    behind, any number of times -/
+inductive SeqReachK (C : Crypto) (cfg : Config) : Node → Prop where
+  | init (ts : Nat) : SeqReachK C cfg (initNode C cfg ts)
+  | step (n : Node) (op : Op) : SeqReachK C cfg n → OpOk n op → SeqReachK C cfg (stepOp C n op)
+  | reopen (n : Node) (ts : Nat) : SeqReachK C cfg n → SeqReachK C cfg (reopenNode C n ts)
+  | crash (n nc : Node) (w ts k ts' : Nat) : SeqReachK C cfg n → OpOk n (.commit w ts) → 1 ≤ k →
+      commitCrashInAppend C n w ts k = some nc → SeqReachK C cfg (reopenNode C nc ts')
+
+/-- a history without crashes is such a history -/
+theorem seqReachK_of_seqReachR (C : Crypto) (cfg : Config) (n : Node) (h : SeqReachR C cfg n) : SeqReachK C cfg n := by
+  induction h with
+  | init ts => exact .init ts
+  | step n op _ hop ih => exact .step n op ih hop
+  | reopen n ts _ ih => exact .reopen n ts ih
+
+/-- A COMMIT THAT STOPS INSIDE ITS `append` AFTER THE BLOCK RECORD WAS WRITTEN IS, AFTER THE RESTART, THE COMPLETED
+    COMMIT: from every node state whose chain has its height record in place and its tip block stored, the
+    restarted node has the configuration's identity, height and tip of the node the uninterrupted `commit` returns
+    (one block more than before), over a store holding the same records. -/
+theorem reopen_after_commit_crash_is_completed_commit (C : Crypto) (n nc : Node) (w ts k ts' : Nat) (hk : 1 ≤ k)
+    (hm : MetaInv n.chain) (htip : (blockAt n.chain.store n.chain.height).isSome = true)
+    (hc : commitCrashInAppend C n w ts k = some nc) :
+    (reopenNode C nc ts').chain.height = (commit C n w ts).1.chain.height ∧
+    (reopenNode C nc ts').chain.tip = (commit C n w ts).1.chain.tip ∧
+    (∀ key, sget (reopenNode C nc ts').chain.store key = sget (commit C n w ts).1.chain.store key) ∧
+    (reopenNode C nc ts').chain.height = n.chain.height + 1 := by
+  obtain ⟨_, hh, ht, hs, h1⟩ := reopen_commitCrash C n nc w ts k ts' hk hm htip hc
+  exact ⟨hh, ht, hs, by rw [← h1]; exact hh⟩
+
+/-- THE SEQUENTIAL-HISTORY INVARIANT WITH RESTARTS AND CRASHES INSIDE `append`.  After every such history the
+    configuration is the original one, the chain invariant holds (in particular the in-memory tip is the hash of
+    the stored block at the in-memory height), the store's data image is the replay of the chain, the height record
+    names the height with no block record above it — and `verify()` returns `Ok`.  So a chain built through
+    begin / commit keeps verifying whatever crash of this kind and restart lies behind it. -/
+theorem sequential_history_invariant_append_crash (C : Crypto) (cfg : Config) (hsc : SignCorrect C)
+    (hown : cfg.registry = some [(cfg.nodeId, cfg.key)]) (n : Node) (h : SeqReachK C cfg n) :
+    NodeInv C cfg n ∧ verifyChain C n.cfg.registry n.chain = none ∧
+    (∃ t, blockAt n.chain.store n.chain.height = some t ∧ n.chain.tip = t.header.hash C) := by
+  have hreg : ∀ r, cfg.registry = some r → regLookup r cfg.nodeId = some cfg.key := by
+    intro r hr
+    rw [hown] at hr
+    cases hr
+    simp [regLookup]
+  suffices hN : NodeInv C cfg n from ⟨hN, by rw [hN.hcfg]; exact verify_complete C _ _ hN.hinv.ok, hN.hinv.tip⟩
+  have hcfg' : ∀ m : Node, m.cfg = cfg → ∀ ts, (reopenNode C m ts).cfg = cfg := by
+    intro m hm ts
+    simp only [reopenNode, hm]
+    obtain ⟨a1, a2, a3, a4, a5, a6⟩ := cfg
+    simp only at hown
+    simp [hown]
+  induction h with
+  | init ts => exact (sequential_history_invariant_restart C cfg hsc hown _ (.init ts)).1
+  | step n op _ hop ih => exact stepOp_nodeInv C cfg hsc hreg n op hop ih
+  | reopen n ts _ ih =>
+    obtain ⟨hcfg, hinv, hdata, hmeta, hgen⟩ := ih
+    obtain ⟨hh, ht, hs⟩ := openChain_healthy C cfg.registry n.chain n.cfg.nodeId ts hinv hmeta
+    exact ⟨hcfg' n hcfg ts, inv_congr C _ n.chain _ (fun j => storeEq_blockAt hs j) hh ht hinv,
+      dataInv_congr n.chain _ hs hh hdata, metaInv_congr n.chain _ hs hh hmeta,
+      by rw [← hgen]; exact genesisTxs_congr _ _ (storeEq_blockAt hs 0)⟩
+  | crash n nc w ts k ts' _ hop hk hc ih =>
+    have hdone : NodeInv C cfg (commit C n w ts).1 := stepOp_nodeInv C cfg hsc hreg n (.commit w ts) hop ih
+    obtain ⟨t, htip, _⟩ := ih.hinv.tip
+    obtain ⟨hcfgc, hh, ht, hs, _⟩ := reopen_commitCrash C n nc w ts k ts' hk ih.hmeta (by rw [htip]; rfl) hc
+    obtain ⟨_, hinv, hdata, hmeta, hgen⟩ := hdone
+    exact ⟨hcfg' nc (by rw [hcfgc]; exact ih.hcfg) ts',
+      inv_congr C _ (commit C n w ts).1.chain _ (fun j => storeEq_blockAt hs j) hh ht hinv,
+      dataInv_congr (commit C n w ts).1.chain _ hs hh hdata, metaInv_congr (commit C n w ts).1.chain _ hs hh hmeta,
+      by rw [← hgen]; exact genesisTxs_congr _ _ (storeEq_blockAt hs 0)⟩
+
+/-- every op list whose calls satisfy `OpOk` where they are issued continues such a history -/
+theorem seqReachK_of_runOps (C : Crypto) (cfg : Config) :
+    ∀ (ops : List Op) (n : Node), SeqReachK C cfg n → (∀ i (h : i < ops.length), OpOk (runOps C n (ops.take i)) ops[i]) →
+      SeqReachK C cfg (runOps C n ops) := by
+  intro ops
+  induction ops with
+  | nil => intro n h _; exact h
+  | cons op ops ih =>
+    intro n h hok
+    simp only [runOps, List.foldl_cons]
+    refine ih _ (SeqReachK.step n op h (by have := hok 0 (by simp); simpa [runOps, List.getElem_cons_zero] using this)) ?_
+    intro i hi
+    have := hok (i + 1) (by simp; omega)
+    simpa [runOps, List.getElem_cons_succ, List.take_succ_cons] using this
+
+/-- the node of the examples below: block 1 committed, a second workspace with one write still active -/
+def exCrashPre : Node :=
+  runOps drvCrypto (initNode drvCrypto cfgOwn 0) [.begin, .put 0 1 1, .commit 0 5, .begin, .put 1 2 2]
+
+/-- `commit 1` stops inside `append`: block record 2 written, height record still 1 -/
+def exCrashed : Node := (commitCrashInAppend drvCrypto exCrashPre 1 6 1).getD exCrashPre
+
+/-- restart over the crash state, one more commit, a second restart, another commit -/
+def exCrashHistoryEnd : Node :=
+  runOps drvCrypto (reopenNode drvCrypto (runOps drvCrypto (reopenNode drvCrypto exCrashed 9)
+    [.begin, .put 2 3 3, .commit 2 10]) 11) [.begin, .put 3 4 4, .commit 3 12]
+
+/-- non-vacuity: the crash state is reached (`some`), it holds block record 2 under height record 1; the restart +
+    one more commit + a second restart + another commit is a history in `SeqReachK` and ends at height 4; right after
+    the first restart the tip is the hash of block 2, and at the end every block names its predecessor
+    (`verifyChain = none`) -/
+example : commitCrashInAppend drvCrypto exCrashPre 1 6 1 = some exCrashed ∧
+    loadHeight exCrashed.chain.store = some 1 ∧ (blockAt exCrashed.chain.store 2).isSome = true ∧
+    (reopenNode drvCrypto exCrashed 9).chain.height = 2 ∧
+    SeqReachK drvCrypto cfgOwn exCrashHistoryEnd ∧ exCrashHistoryEnd.chain.height = 4 ∧
+    (blockAt (reopenNode drvCrypto exCrashed 9).chain.store 2).map (·.header.hash drvCrypto)
+      = some (reopenNode drvCrypto exCrashed 9).chain.tip ∧
+    verifyChain drvCrypto exCrashHistoryEnd.cfg.registry exCrashHistoryEnd.chain = none := by
+  have h0 : SeqReachK drvCrypto cfgOwn exCrashPre :=
+    seqReachK_of_runOps drvCrypto cfgOwn _ _ (.init 0) (by decide +kernel)
+  have h1 : SeqReachK drvCrypto cfgOwn (reopenNode drvCrypto exCrashed 9) :=
+    .crash exCrashPre exCrashed 1 6 1 9 h0 (by decide +kernel) (by decide) (by decide +kernel)
+  have h2 := seqReachK_of_runOps drvCrypto cfgOwn [.begin, .put 2 3 3, .commit 2 10] _ h1 (by decide +kernel)
+  have h3 : SeqReachK drvCrypto cfgOwn exCrashHistoryEnd :=
+    seqReachK_of_runOps drvCrypto cfgOwn [.begin, .put 3 4 4, .commit 3 12] _ (.reopen _ 11 h2) (by decide +kernel)
+  exact ⟨by decide +kernel, by decide +kernel, by decide +kernel, by decide +kernel, h3, by decide +kernel,
+    by decide +kernel, by decide +kernel⟩
+
+/-- the restart over `exCrashed` as the code does it -/
+def exReopened : Node := reopenNode drvCrypto exCrashed 9
+
+/-- the same restart with the tip taken from the block the walk back stopped at (`openChainWalkBackTip`) -/
+def exReopenedStale : Node := { exReopened with chain := openChainWalkBackTip drvCrypto exCrashed.chain.store [1] 9 }
+
+/-- the next workspace after the restart: begin, one put (committed as workspace 2) -/
+def exNext : List Op := [.begin, .put 2 3 3]
+
+/-- WITNESS (the variant of `initialize` that reuses the block found by the walk BACK for the tip,
+    `openChainWalkBackTip`; regression fixture seeded/C16_2): over the same crash state — block record 2 written,
+    height record 1 — it also reports height 2 and the stored chain verifies, but its tip is the hash of block 1,
+    not of block 2.  The next commit through the public interface (begin / put / commit) returns `Ok(3)`: `append`
+    compares the block's predecessor hash only with the in-memory tip.  Block 3 names block 1 as its predecessor
+    and `verify()` fails with the predecessor-hash error — on the current `openChain` the same history verifies. -/
+theorem cached_walk_back_tip_breaks_chain_witness :
+    exReopened.chain.height = 2 ∧ exReopenedStale.chain.height = 2 ∧ exReopenedStale.chain.store = exReopened.chain.store ∧
+    (blockAt exReopened.chain.store 2).map (·.header.hash drvCrypto) = some exReopened.chain.tip ∧
+    (blockAt exReopenedStale.chain.store 2).map (·.header.hash drvCrypto) ≠ some exReopenedStale.chain.tip ∧
+    (blockAt exReopenedStale.chain.store 1).map (·.header.hash drvCrypto) = some exReopenedStale.chain.tip ∧
+    verifyChain drvCrypto exReopenedStale.cfg.registry exReopenedStale.chain = none ∧
+    (commit drvCrypto (runOps drvCrypto exReopenedStale exNext) 2 10).2.res = some (.ok 3) ∧
+    verifyChain drvCrypto exReopenedStale.cfg.registry (commit drvCrypto (runOps drvCrypto exReopenedStale exNext) 2 10).1.chain
+      = some .prevHash ∧
+    (commit drvCrypto (runOps drvCrypto exReopened exNext) 2 10).2.res = some (.ok 3) ∧
+    verifyChain drvCrypto exReopened.cfg.registry (commit drvCrypto (runOps drvCrypto exReopened exNext) 2 10).1.chain = none :=
+  ⟨by decide +kernel, by decide +kernel, by decide +kernel, by decide +kernel, by decide +kernel, by decide +kernel,
+   by decide +kernel, by decide +kernel, by decide +kernel, by decide +kernel, by decide +kernel⟩
 
 end Neumann.Chain.Props
